@@ -71,7 +71,10 @@ Inductive goval : Type :=
 | GBytes (s : string)                    (* a non-nil []byte *)
 | GNilBytes                              (* []byte(nil) *)
 | GPtr (addr : nat) (v : goval)          (* non-nil pointer; [addr] identifies the pointee *)
-| GNilPtr (t : gty).                     (* nil pointer of type *t *)
+| GNilPtr (t : gty)                      (* nil pointer of type *t *)
+| GCustom (name : string) (under : goval) (ser : dval).
+   (* a value of the named scalar type [name] (underlying value [under]) that implements driver.Valuer;
+      [ser] is what its Value() returns -- a function of type and value, carried for convenience *)
 
 Fixpoint type_of (v : goval) : option gty :=
   match v with
@@ -83,6 +86,11 @@ Fixpoint type_of (v : goval) : option gty :=
   | GBytes _ | GNilBytes => Some TyBytes
   | GPtr _ v => match type_of v with Some t => Some (TyPtr t) | None => None end
   | GNilPtr t => Some (TyPtr t)
+  | GCustom n u _ => match type_of u with
+                     | Some (TyInt k _) => Some (TyInt k n)
+                     | Some (TyStr _) => Some (TyStr n)
+                     | x => x
+                     end
   end.
 
 (** Equality of a query's value and a limit's value (limitValuesEqual in db.go, after C12-fix-1): Go's
@@ -90,9 +98,19 @@ Fixpoint type_of (v : goval) : option gty :=
     reflect.DeepEqual for the types [==] cannot compare, of which []byte is the one that occurs (a nil
     slice and an empty one are different).  The same function is Go's map-key equality in the matcher,
     where []byte never occurs (MakeHashable turns it into a string first). *)
+Definition scalar_eqb (a b : goval) : bool :=
+  match a, b with
+  | GInt k n x, GInt k' n' y => ikind_eqb k k' && String.eqb n n' && Z.eqb x y
+  | GStr n x, GStr n' y => String.eqb n n' && String.eqb x y
+  | GBool x, GBool y => Bool.eqb x y
+  | GFloat x, GFloat y => Z.eqb x y
+  | _, _ => false
+  end.
+
 Definition go_eqb (a b : goval) : bool :=
   match a, b with
   | GNil, GNil => true
+  | GCustom n u s, GCustom n' u' s' => String.eqb n n' && scalar_eqb u u' && dval_eqb s s'
   | GInt k n x, GInt k' n' y => ikind_eqb k k' && String.eqb n n' && Z.eqb x y
   | GStr n x, GStr n' y => String.eqb n n' && String.eqb x y
   | GBool x, GBool y => Bool.eqb x y
@@ -146,6 +164,10 @@ Definition is_zero (v : goval) : bool :=
   | GNilBytes => true
   | GPtr _ _ => false
   | GNilPtr _ => true
+  | GCustom _ u _ => match u with
+                     | GInt _ _ z => Z.eqb z 0 | GStr _ x => String.eqb x "" | GBool b => negb b | GFloat q => Z.eqb q 0
+                     | _ => false
+                     end
   end.
 
 Definition base_dval (v : goval) : dval :=
@@ -155,6 +177,7 @@ Definition base_dval (v : goval) : dval :=
   | GBool b => DBool b
   | GFloat q => DFloat q
   | GBytes s => DBytes s
+  | GCustom _ _ ser => ser
   | _ => DNull
   end.
 
@@ -163,6 +186,7 @@ Definition valuer (implicitnull : bool) (v : goval) : dval :=
   match v with
   | GNil | GNilPtr _ | GNilBytes => DNull      (* a nil slice serializes to NULL *)
   | GPtr _ v' => base_dval v'                      (* isZero of a non-nil pointer is false *)
+  | GCustom _ _ ser => ser                         (* driver.Valuer is consulted before the tags *)
   | _ => if implicitnull && is_zero v then DNull else base_dval v
   end.
 
@@ -763,6 +787,7 @@ Fixpoint goval_eqb (a b : goval) : bool :=
   | GNilBytes, GNilBytes => true
   | GPtr p x, GPtr q y => Nat.eqb p q && goval_eqb x y
   | GNilPtr t, GNilPtr u => gty_eqb t u
+  | GCustom n u s, GCustom n' u' s' => String.eqb n n' && goval_eqb u u' && dval_eqb s s'
   | _, _ => false
   end.
 
